@@ -72,6 +72,15 @@ def install(reg):
         ex.exc_any(st.fork(), f"{ex.loc(node)} LZMADecompressor.decompress")
         return [(st, VUnk("decompressed"))]
 
+    def m_lzma_decompress(ex, st, args, kwargs, node):
+        """lzma.decompress(data, format=..): the one-shot form of the same call (no max_length)."""
+        tag = ast.unparse(node)
+        kind = "alone" if "FORMAT_ALONE" in tag else ("raw" if "FORMAT_RAW" in tag else "?")
+        st.ghost[GHOST] = st.ghost.get(GHOST, ()) + ((kind, args[0] if args else None, None, ex.loc(node)),)
+        ex.exc_any(st.fork(), f"{ex.loc(node)} lzma.decompress")
+        return [(st, VUnk("decompressed"))]
+
+    reg.ext_models["lzma.decompress"] = m_lzma_decompress
     reg.ext_models["struct.pack"] = m_pack
     for n in ("lzma.LZMADecompressor", ("new", "lzma.LZMADecompressor")):
         reg.ext_models[n] = new_dec
@@ -84,6 +93,9 @@ UNRECOGNISED = z3.Function("c12!model-not-definite", z3.IntSort(), z3.BoolSort()
 def bounded_by_declared(c):
     """Every decompressor call made on this path carries the last declared size of the folder."""
     calls = c.st.ghost.get(GHOST, ())
+    if not calls and c.exc is None:
+        # the function returned without a decompressor call the model saw (it is under contract because it makes one): not followed
+        return UNRECOGNISED
     sizes = c.args.get("unpack_sizes") if hasattr(c.args, "get") else None
     if sizes is None:
         # the function does not receive the declared sizes: nothing it hands to a decompressor can be the declared bound
